@@ -137,6 +137,7 @@ type AskSpec struct {
 	Resize            Res    `json:"resize,omitempty"`       // for ASK_RESIZE
 	ResizeNoNode      bool   `json:"resizeNoNode,omitempty"` // ASK_RESIZE re-sends the request as originally submitted (no node id) even when bound
 	BindNode          string `json:"bind,omitempty"`         // for ASK_BIND: the RM binds the outstanding ask itself on this node
+	BindResize        bool   `json:"bindResize,omitempty"`   // ASK_BIND carries the Resize quantity (placement and resize of a known ask in one update) unless the key was resized before
 }
 
 type ForeignSpec struct {
